@@ -20,5 +20,9 @@ def build(P):
     P.lemma(L + "mint_parse_state_machine", types={"name": "str", "region": "str", "account": "str"},
             requires=NAME_OK + ["not (':' in region)", "not ('/' in region)", "re_full('[0-9]+', account)"],
             native={"cmd": "lemma", "path": "/verif/lemmas/c17_arn.py", "func": "mint_parse_state_machine"})
+    P.native("identifier-links", "natives.c17:links", kind="bounded", clause="C17:",
+             bound="STANDARD and EXPRESS executions (succeeding and failing) of 7 machines whose names are adversarial for string surgery "
+                   "on ARNs ('execution', 'stateMachine', ...), plus the timeout back-stop for each: every status notification, the "
+                   "stored record and the back-stop's synthesised end name the machine ARN / execution ARN / name the execution was started for")
     P.explanation = ("ARN mint/parse round trip and validator postconditions proved on the real functions "
                      "(bodies inlined from /repo on every run)")
